@@ -5545,6 +5545,9 @@ def symlink_to_bytes(symlink_target):
         else:
             symlink_data.extend(b'\x05')
             ostaname = _ostaunicode(comp)
+            if len(ostaname) > 255:
+                # ECMA-167, Part 4, 14.16.1.2 stores the length in one byte.
+                raise pycdlibexception.PyCdlibInvalidInput('UDF symlink target component is too long')
             symlink_data.append(len(ostaname))
             symlink_data.extend(b'\x00\x00')
             symlink_data.extend(ostaname)
